@@ -334,7 +334,13 @@ def line_rule(ctx: Ctx) -> None:
                 if not _is_parser_exc(m, c) or c is pe:
                     continue
                 n += 1
-                arg = next((k.value for k in call.keywords if k.arg == "line_number"), call.args[0] if call.args else None)
+                fields_order = []
+                for k_ in reversed(m.mro(c)):
+                    for a_ in k_.anns:
+                        if a_ not in fields_order:
+                            fields_order.append(a_)
+                pos = fields_order.index("line_number") if "line_number" in fields_order else 0
+                arg = next((k.value for k in call.keywords if k.arg == "line_number"), call.args[pos] if len(call.args) > pos else None)
                 key = f"{cn}.{name}|{c.name}"
                 ok = False
                 why = "no line_number argument"
